@@ -653,7 +653,14 @@ def direct(rng, tier, focus=()):
                 nontriv.add(('refuse', repr(spec)))
             return None
         if exp is None:
-            fail('accepted-but-denotes-nothing', spec, got=[x.addrType, repr(x.addrNet), repr(x.addrAddr)])
+            # name what is out of range, so that distinct defects give distinct replays
+            kind = 'accepted-but-denotes-nothing'
+            port = x.__dict__.get('addrPort')
+            if isinstance(x.addrNet, int) and not (0 <= x.addrNet <= 65534) or (x.addrNet is not None and not isinstance(x.addrNet, int)):
+                kind = 'network-out-of-range-accepted'
+            elif isinstance(port, int) and not (0 <= port <= 65535):
+                kind = 'port-out-of-range-accepted'
+            fail(kind, spec, got=[x.addrType, repr(x.addrNet), repr(x.addrAddr)])
             return None
         if exp is UNSPEC:
             return x
